@@ -408,6 +408,8 @@ def publicize(text, kind):
                 while j < close:
                     tt = toks[j]
                     if tt.kind == 'punct' and tt.text in rustsrc.OPEN:
+                        if expect:
+                            ins.append(tt.start)
                         j = rustsrc.match_close(toks, j) + 1
                         expect = False
                         continue
